@@ -254,16 +254,21 @@ PROPS["C30"].update({
 PROPS["C04"] = {
     "title": "Reopen preserves logical content",
     "kani": [("kani/storage/idmap.rs", r"^c04_")],
-    "e2": ["idmap"],
-    "functions_encoded": ["nervusdb_storage::idmap::I2eRecord::{encode,decode}", "IdMap::apply_create_node_multi_label"],
+    "e2": ["idmap", "closecp"],
+    "functions_encoded": ["nervusdb_storage::idmap::I2eRecord::{encode,decode}", "IdMap::apply_create_node_multi_label",
+                          "engine::GraphEngine::checkpoint_on_close"],
     "bounds": {"record": "all external ids, label ids, flags", "labels": "label vectors of 1, 2 (quick) and 3 (thorough) symbolic ids, incl. duplicates"},
     "stubs": ["E2: HashMap contains/insert, slice sort (sorting network over symbolic ids), Vec::dedup (forks over equalities), Pager setters -> Ok, "
               "write_i2e_record -> Ok and records its arguments"],
     "assumptions": ["IdMap::load rebuilds a node's label list as vec![record.label_id] (read from the code)",
                     "callers never pass an empty label vector (the executor passes UNLABELED_LABEL_ID)"],
-    "outside_claim": ["WAL record order inside a commit, checkpoint-on-close, label interner replay, properties, relationships"],
+    "outside_claim": ["WAL record order inside a commit, the content of the close snapshot beyond its transaction-id bookkeeping, label interner "
+                      "replay, properties, relationships"],
     "level_text": "Bounded model checking (Kani/CBMC) of node-table persistence: the persisted node record round-trips bit-exactly; "
-                  "(E2) the label list written at node creation equals the list rebuilt by IdMap::load. Partial: node-table persistence only.",
+                  "(E2) the label list written at node creation equals the list rebuilt by IdMap::load; (E2) the Checkpoint record written by "
+                  "checkpoint_on_close covers exactly the transaction ids handed out before the close (never the snapshot's own id or a later "
+                  "one, for every 64-bit counter value), and nothing is rewritten while unflushed runs exist. Partial: node-table persistence "
+                  "and close bookkeeping only.",
     "level_note": "Trusted: Kani/CBMC/CaDiCaL.",
     "design_ref": "DESIGN.md section 3, C04",
 }
@@ -462,15 +467,19 @@ PROPS["C28"] = {
     "design_ref": "DESIGN.md section 3, C28 and section 7",
 }
 
-PROPS["C01"]["e2"] = ["c17", "c01", "replay"]
-PROPS["C01"]["functions_encoded"] += ["engine::replay_graph_transactions"]
+PROPS["C01"]["e2"] = ["c17", "c01", "replay", "closecp"]
+PROPS["C01"]["functions_encoded"] += ["engine::replay_graph_transactions", "engine::GraphEngine::checkpoint_on_close"]
+PROPS["C01"]["stubs"] += ["checkpoint_on_close: locks, label snapshot, segment pointer list, root loads opaque; the atomics are symbolic 64-bit cells; "
+                          "Wal::rewrite_as_snapshot records its arguments"]
 PROPS["C01"]["bounds"]["replay"] = ("committed lists of 1 transaction x <= 2 records and 2 transactions x <= 1 record (quick), 2 x 2 (thorough); every "
                                    "WalRecord kind is an alternative for every record; all field values and the checkpoint txid symbolic")
 PROPS["C01"]["stubs"] += ["replay: every IdMap::apply_* / MemTable::* method is a recorder; IdMap::lookup -> None | Some; L0Run::is_empty -> both"]
 PROPS["C01"]["level_text"] = PROPS["C01"]["level_text"].replace(
     "plus Kani/CBMC round trips",
     "and of engine::replay_graph_transactions (every record of every committed, not-checkpointed transaction is applied through the matching "
-    "call with its own arguments, in log order; checkpointed transactions are skipped entirely; one run per applied transaction), plus Kani/CBMC round trips")
+    "call with its own arguments, in log order; checkpointed transactions are skipped entirely; one run per applied transaction), and of "
+    "GraphEngine::checkpoint_on_close (the Checkpoint it writes covers exactly the ids handed out before the close, so a transaction committed "
+    "after reopen can never be skipped by a later recovery), plus Kani/CBMC round trips")
 PROPS["C02"]["e2"] = ["c02", "replay"]
 PROPS["C02"]["functions_encoded"] += ["engine::replay_graph_transactions"]
 PROPS["C02"]["level_text"] = PROPS["C02"]["level_text"].replace(
